@@ -827,21 +827,19 @@ Proof. exact emd_int32_correct_below_bound_partial2. Qed.
 Print Assumptions C10_emd_int32_correct_below_bound_partial.
 
 (* C10_mcf_no_fail_if_flag_clear — PARTIAL.  FULL statement aimed at: a step of the flagged run whose
-   flag is clear never returns MFail.  PROVED (the augmentation half): with the flag clear the walk
+   flag is clear never returns MFail.  PROVED (everything but the search): with the flag clear the walk
    along prev reaches the start node within nv hops through finalized nodes, every hop is a residual
    arc, hence x[from] has an entry pointing at `to` (forward entry of an arc from->to or reverse entry
-   of an arc to->from; the skeleton of x never changes) — scan_delta and augment cannot fail; a failing
-   step with a clear flag failed in the search: compute_shortest_path = None or no deficit node reached
-   (l = k).  MISSING: lemma csp_total (the Dijkstra loop never leaves the heap's index range — the
-   per-operation halves are C10_heap_*_safe) and deficit_reachable (a node with negative excess is
-   finalized: balance + the artificial arcs). *)
+   of an arc to->from; the skeleton of x never changes) — scan_delta and augment cannot fail; and the
+   node compute_shortest_path returns has negative excess, so it is never the start node.  A failing
+   step with a clear flag is therefore a step whose compute_shortest_path returned None.
+   MISSING: lemma csp_total (under the Dijkstra invariant J the loop never leaves the heap's index
+   range — per-operation halves: C10_heap_*_safe —, and a node of negative excess is popped before the
+   heap is empty and within nv+1 iterations: all nodes start in the heap, supplies cancel). *)
 Theorem C10_mcf_no_fail_if_flag_clear_partial : forall nv c st, length c = nv ->
   (forall l tc, In l c -> In tc l -> (fst tc < nv)%nat /\ 0 <= snd tc) ->
   RunInv nv c st -> skel_x (m_x st) = skel_x (x_of nv (mk_arcs c)) ->
   step_flag st = false -> mcf_step st = MFail ->
-  match compute_shortest_path nv (m_d st) (m_prev st) (snd (pick_supply (m_e st) O 0 O)) (m_rf st) (m_rb st) (m_e st) with
-  | None => True
-  | Some (_, _, _, _, l) => l = snd (pick_supply (m_e st) O 0 O)
-  end.
+  compute_shortest_path nv (m_d st) (m_prev st) (snd (pick_supply (m_e st) O 0 O)) (m_rf st) (m_rb st) (m_e st) = None.
 Proof. exact step_fail_only_in_search. Qed.
 Print Assumptions C10_mcf_no_fail_if_flag_clear_partial.
